@@ -490,4 +490,17 @@ def run(ctx, rep):
     loopstate.rule(ctx, rep, "C05", ['validation::resolve_types', 'validation::resolve_type'])
     import pipeline
     pipeline.rule(ctx, rep, "C05", ['resolve_types'])
+    rep.rule("LX", "lexical agreement (C03 A10, re-evaluated here): the property quantifies over documents - token classes, their priorities, the keyword rule, comments and white space must be the reference ones (a changed comment / number / keyword regex silently drops or merges members)")
+    import lexical
+    lexical.rules(ctx, rep, "C05", {"trivia", "classes", "priority", "keywords", "tokenizer"})
+    rep.rule("H", "inherits C12 H3-H6 (re-evaluated here): the kind of an imported reference comes from the files CURRENTLY in the parser - add_content / add_file store under the caller's id, remove_content removes exactly that id")
+    import c12 as _c12
+    import core as _core12
+    _r12 = _core12.Report("C12")
+    _c12.run(ctx, _r12)
+    _bad12 = [v for v in _r12.violations if v.rule in ("H3", "H5", "H6")]
+    for v in _bad12:
+        rep.fail("H", v.key.replace("C12|", "C05|", 1), v.where, v.message, witness=v.witness)
+    if not _bad12:
+        rep.ok("H", "add_content / add_file / remove_content as C12 requires", {"C12 obligations": _r12.obligations})
     rep.assumptions += ["TB-1 rustc MIR", "TB-4 tabulator", "TB-3 HashMap/HashSet/Iterator semantics: the searches over imports / forward declarations are oracles whose predicates are not analysed"]
